@@ -38,13 +38,18 @@ mod rpc_half {
     #[derive(Default)]
     pub struct RpcHalf;
 
-    async fn quiesce(p: &hook::Probe, c: &hook::ClientProbe) {
+    /// Runs the single-threaded runtime until nothing observable has moved for 400 consecutive yields. Returns
+    /// false if that does not happen (the request rate is not bounded: every yield serves more calls).
+    async fn quiesce(p: &hook::Probe, c: &hook::ClientProbe) -> bool {
         let snap = || {
             (p.starts.lock().unwrap().len(), p.done.load(Ordering::SeqCst), c.done.load(Ordering::SeqCst),
              c.opened.load(Ordering::SeqCst))
         };
         let (mut last, mut stable, mut total) = (snap(), 0, 0);
-        while stable < 400 && total < 400_000 {
+        while stable < 400 {
+            if total >= 30_000 || last.0 > 5_000 {
+                return false;
+            }
             tokio::task::yield_now().await;
             total += 1;
             let cur = snap();
@@ -55,6 +60,7 @@ mod rpc_half {
                 last = cur;
             }
         }
+        true
     }
 
     struct Run {
@@ -62,6 +68,7 @@ mod rpc_half {
         running: Vec<u64>,
         times: Vec<u128>,
         max_running: usize,
+        runaway: bool,
     }
 
     fn scenario(op: &Value) -> Run {
@@ -99,11 +106,14 @@ mod rpc_half {
                     let _ = hook::greedy_client(ctx, b, streams, streams.max(1) as usize, c1).await;
                     Ok(())
                 });
-                let mut run = Run { starts: vec![], running: vec![], times: vec![], max_running: 0 };
-                quiesce(&probe, &cprobe).await;
+                let mut run = Run { starts: vec![], running: vec![], times: vec![], max_running: 0, runaway: false };
+                run.runaway = !quiesce(&probe, &cprobe).await;
                 run.starts.push(probe.starts.lock().unwrap().len() as u64);
                 run.running.push(probe.running.load(Ordering::SeqCst) as u64);
                 for st in &steps {
+                    if run.runaway {
+                        break;
+                    }
                     if let Some(d) = st["adv"].as_u64() {
                         clock.advance(time::Duration::nanoseconds(d as i64));
                     } else if let Some(k) = st["rel_h"].as_u64() {
@@ -119,7 +129,7 @@ mod rpc_half {
                             g.add_permits(k as usize);
                         }
                     }
-                    quiesce(&probe, &cprobe).await;
+                    run.runaway = !quiesce(&probe, &cprobe).await;
                     run.starts.push(probe.starts.lock().unwrap().len() as u64);
                     run.running.push(probe.running.load(Ordering::SeqCst) as u64);
                 }
@@ -137,7 +147,10 @@ mod rpc_half {
             let count = if opts.thorough { 800 } else { 48 };
             let mut ops = vec![];
             for i in 0..count {
-                let inflight = *[1u64, 3, 5].choose(rng).unwrap();
+                // the in-flight limits of the shipped RPCs (ping / consensus / get_block)
+                let inflight = *[hook::INFLIGHT_PING as u64, hook::INFLIGHT_CONSENSUS as u64, hook::INFLIGHT_GET_BLOCK as u64]
+                    .choose(rng)
+                    .unwrap();
                 let burst = rng.gen_range(1..=4u64);
                 let refresh = *[10_000_000u64, 100_000_000, 1_000_000_000, 7].choose(rng).unwrap();
                 let streams = match rng.gen_range(0..4) {
@@ -198,6 +211,10 @@ mod rpc_half {
             let burst = op["burst"].as_u64().unwrap() as u128;
             let refresh = op["refresh_ns"].as_u64().unwrap() as u128;
             let hold_r = op["hold_requests"].as_bool().unwrap_or(false);
+            if run.runaway {
+                out.oracle_fail("rpc_runaway", &format!("no quiescence: {} requests started without the clock moving (rate not enforced)", run.times.len()), op.clone());
+                return json!({"class": "rpc", "runaway": true, "starts": run.starts, "running": run.running});
+            }
             // S: in-flight cap
             if run.max_running as u128 > inflight {
                 out.oracle_fail("rpc_inflight", &format!("{} handlers ran concurrently, INFLIGHT = {inflight}", run.max_running), op.clone());
@@ -243,12 +260,26 @@ struct Case {
 impl Drop for Case {
     fn drop(&mut self) {
         // futures and permits borrow the limiter and the ctx: drop them first
-        self.futs.clear();
-        self.permits.clear();
-        // SAFETY: both were created by Box::into_raw in `Case::new`, nothing refers to them any more.
-        unsafe {
-            drop(Box::from_raw(self.lim));
-            drop(Box::from_raw(self.ctx));
+        let futs = std::mem::take(&mut self.futs);
+        let permits = std::mem::take(&mut self.permits);
+        if std::thread::panicking() {
+            // a second panic (e.g. a poisoned mutex inside `Permit::drop`) would abort: leak instead
+            std::mem::forget(futs);
+            std::mem::forget(permits);
+            return;
+        }
+        let (lim, c) = (self.lim, self.ctx);
+        let ok = catch(move || {
+            drop(futs);
+            drop(permits);
+        })
+        .is_ok();
+        if ok {
+            // SAFETY: both were created by Box::into_raw in `Case::new`, nothing refers to them any more.
+            unsafe {
+                drop(Box::from_raw(lim));
+                drop(Box::from_raw(c));
+            }
         }
     }
 }
@@ -420,19 +451,31 @@ struct Builder {
     next_id: u64,
     burst: u64,
     refresh: u64,
+    /// the real limiter panicked while generating: stop extending this case (the run reports the panic)
+    dead: bool,
 }
 
 impl Builder {
     fn new(burst: u64, refresh_s: i64, refresh_ns: i32) -> Self {
         let case = Case::new(burst, refresh_s, refresh_ns);
         let refresh = if case.refresh > 0 { case.refresh.min(u64::MAX as i128) as u64 } else { 0 };
-        Self { ops: vec![init_op(burst, refresh_s, refresh_ns)], case, next_id: 0, burst, refresh }
+        Self { ops: vec![init_op(burst, refresh_s, refresh_ns)], case, next_id: 0, burst, refresh, dead: false }
     }
     fn ns(burst: u64, refresh_ns: u64) -> Self {
         Self::new(burst, (refresh_ns / 1_000_000_000) as i64, (refresh_ns % 1_000_000_000) as i32)
     }
     fn emit(&mut self, op: Value) -> Value {
-        let r = self.case.exec(&op);
+        if self.dead {
+            return json!({"r": "dead"});
+        }
+        let case = &mut self.case;
+        let r = match catch(|| case.exec(&op)) {
+            Ok(r) => r,
+            Err(site) => {
+                self.dead = true;
+                json!({"panic": site})
+            }
+        };
         self.ops.push(op);
         r
     }
@@ -853,7 +896,8 @@ pub struct C15 {
 impl C15 {
     fn exec_lim(&mut self, op: &Value, out: &mut Out) -> Value {
         if op["op"] == "init" {
-            self.case = None;
+            let old = self.case.take();
+            let _ = catch(move || drop(old));
             self.case_ops.clear();
             self.case_ops.push(op.clone());
             let (b, s, n) = (op["burst"].as_u64().expect("burst"), op["refresh_s"].as_i64().expect("refresh_s"),
